@@ -38,6 +38,40 @@ func NewReport(o Obj, lang language.Tag, withLang bool) (rep Report, pan *Panic)
 	return
 }
 
+// SharedOptions is one backing array of report options with spare capacity; sub-slices of it are handed to
+// the report constructors by different goroutines (a constructor that appends to the caller's slice would
+// write into the shared array).
+var sharedOptLangs = []language.Tag{language.Japanese, language.English, language.French}
+
+func SharedOptions() []report.ReportOptionsFunc {
+	all := make([]report.ReportOptionsFunc, 0, 8)
+	for _, l := range sharedOptLangs {
+		all = append(all, report.WithOptionsLanguage(l))
+	}
+	return all
+}
+
+// SharedOptLang returns the language of option i of SharedOptions.
+func SharedOptLang(i int) language.Tag { return sharedOptLangs[i%len(sharedOptLangs)] }
+
+// NewReportOpts builds the report with the caller's option slice passed as a spread slice (len 1, spare capacity).
+func NewReportOpts(o Obj, all []report.ReportOptionsFunc, i int) (rep Report, pan *Panic) {
+	defer catch(&pan)
+	i %= len(sharedOptLangs)
+	opts := all[i : i+1]
+	switch o.Kind {
+	case K3B:
+		rep = Report{Level: 0, B: report.NewBase(o.B3, opts...)}
+	case K3T:
+		rep = Report{Level: 1, T: report.NewTemporal(o.T3, opts...)}
+	case K3E:
+		rep = Report{Level: 2, E: report.NewEnvironmental(o.E3, opts...)}
+	default:
+		panic("NewReportOpts: not a v3 object")
+	}
+	return
+}
+
 // NilReport returns a typed-nil report handle of a level.
 func NilReport(level int) Report { return Report{Level: level} }
 
